@@ -16,6 +16,16 @@ class UserError(Exception):
     """what a symbolic user function raises"""
 
 
+class Box:
+    """a value that is equal to nothing but itself (an object without __eq__, like most user-defined results)"""
+
+    def __init__(self, payload):
+        self.verif_payload = payload
+
+    def __repr__(self):
+        return f'Box({self.verif_payload!r})'
+
+
 def to_json(v):
     if v is None:
         return None
@@ -40,6 +50,8 @@ def to_json(v):
         return {'t': [to_json(x) for x in v]}
     if isinstance(v, dict):
         return {'d': [[to_json(k), to_json(x)] for k, x in v.items()]}
+    if hasattr(v, 'verif_payload'):
+        return {'t': [{'s': 'box'}, to_json(v.verif_payload)]}
     raise ValueError(f'cannot encode {type(v).__name__}: {v!r}')
 
 
